@@ -10,7 +10,7 @@ PROPS = {
     },
     "C02": {
         "test": "TestVerif_C02", "level": "exploration",
-        "rule": "random histories over 1-3 associations x up to 5 sessions on both datapaths mixing accepted requests (establish with fixed/CHOOSE F-TEID and fixed/allocated UE address, modify: update FAR/QER/PDR, create, remove, CP F-SEID change, delete, heartbeat, PFD management, release) with rejected ones (unknown SEID, wrong Node ID, no association) and response-type messages; boundary 24-bit sequence numbers and 64-bit CP SEIDs; every reply counted between heartbeat barriers and compared field by field; distinct = <request kind, outcome, number of live sessions of the association, sequence-number class>",
+        "rule": "random histories over 1-3 associations x up to 5 sessions on both datapaths mixing accepted requests (establish with fixed/CHOOSE F-TEID and fixed/allocated UE address, modify: update FAR/QER/PDR, create, remove, CP F-SEID change, delete, heartbeat, PFD management, release) with rejected ones (unknown SEID, wrong Node ID, no association) and response-type messages; boundary 24-bit sequence numbers and 64-bit CP SEIDs; every reply counted between heartbeat barriers and compared field by field; distinct = <request kind, outcome, number of live sessions of the association, sequence-number class>; pairs of different requests with the same sequence number (the second sent when the first has been answered)",
         "shards": {"quick": 12, "thorough": 16}, "timeout": {"quick": 600, "thorough": 14000},
         "floors": {"quick": {"requests": 3000, "responses_decoded": 2500}, "thorough": {"requests": 100000}},
     },
@@ -69,7 +69,7 @@ PROPS = {
     },
     "C14": {
         "test": "TestVerif_C14", "level": "exploration",
-        "rule": "histories of FAR updates (tunnel change to one of 4 gNBs, same tunnel again, forward->buffer, flag on/off, flags IE with the bit clear, 1-2 FARs per message, unknown FAR id with the flag, injected datapath write failure on UP4) on sessions with arbitrary earlier tunnels, both datapaths; packets taken from the harness unixpacket socket / PacketOut and decoded as Ethernet/IPv4/UDP/GTPv1-U; sentinel update closes each window; distinct = <datapath, FARs in message, flagged FARs, accepted, unknown id>",
+        "rule": "histories of FAR updates (tunnel change to one of 4 gNBs, same tunnel again, forward->buffer, flag on/off, flags IE with the bit clear, 1-2 FARs per message, unknown FAR id with the flag, injected datapath write failure on UP4) on sessions with arbitrary earlier tunnels, both datapaths; packets taken from the harness unixpacket socket / PacketOut and decoded as Ethernet/IPv4/UDP/GTPv1-U; sentinel update closes each window; distinct = <datapath, FARs in message, flagged FARs, accepted, unknown id>; IEs of Update Forwarding Parameters in four orders; a missing sentinel marker is decided by a second sentinel (FIFO), not by a clock",
         "shards": {"quick": 12, "thorough": 16}, "timeout": {"quick": 600, "thorough": 12000},
         "floors": {"quick": {"modifications": 300, "end_markers_seen": 300}, "thorough": {"modifications": 20000}},
     },
@@ -87,7 +87,7 @@ PROPS = {
     },
     "C09": {
         "test": "TestVerif_C09", "level": "exploration",
-        "rule": "sessions with 1-4 QERs (boundary classes of 40-bit rates, GBR/non-GBR mixes, both gate bits, QFI 0-63) assigned to 1-3 PDR pairs with QER lists in different orders (with or without a QER common to all PDRs), on agents with random qci_qos_config (independent cbs/pbs/ebs/burst duration per QFI, new configuration every 30 histories), followed by 2-5 modifications that update existing QERs or create 1-3 QERs (with or without a PDR pair using them); every appQERLookup / sessionQERLookup entry received by the harness BESS server is compared by exact integer arithmetic; the session-level choice is judged from table membership and tracked across modifications; distinct = <QERs, pairs, common QER?, session-level present> and <modification kind, QERs, PDRs>",
+        "rule": "sessions with 1-4 QERs (boundary classes of 40-bit rates, GBR/non-GBR mixes, both gate bits, QFI 0-63) assigned to 1-3 PDR pairs with QER lists in different orders (with or without a QER common to all PDRs), on agents with random qci_qos_config (independent cbs/pbs/ebs/burst duration per QFI, new configuration every 30 histories), followed by 2-5 modifications that update existing QERs or create 1-3 QERs (with or without a PDR pair using them); every appQERLookup / sessionQERLookup entry received by the harness BESS server is compared by exact integer arithmetic; the session-level choice is judged from table membership and tracked across modifications; distinct = <QERs, pairs, common QER?, session-level present> and <modification kind, QERs, PDRs>; QFI / QCI values 64-255 too",
         "shards": {"quick": 12, "thorough": 16}, "timeout": {"quick": 600, "thorough": 12000},
         "floors": {"quick": {"qos_entries_checked": 5000, "modifications": 500}, "thorough": {"qos_entries_checked": 300000}},
     },
